@@ -133,16 +133,19 @@ pub fn record_schema(a: &Args) {
     let mut outcomes: std::collections::BTreeMap<String, usize> = Default::default();
     for s in 0..sessions {
         o.line(&json!({"ev": "Reset"}));
-        let mut g = if s % 3 == 0 { GenCfg::rich() } else { GenCfg::plain() };
+        let scaled = s % 6 == 5;
+        let mut g = if scaled { GenCfg::scaled(&mut r) } else if s % 3 == 0 { GenCfg::rich() } else { GenCfg::plain() };
         g.pretty = s % 5 == 1;
-        g.max_depth = 2 + r.below(4);
-        g.max_kids = 1 + r.below(5);
-        // a small pool per session so that names repeat at different depths and documents overlap
-        let k = 2 + r.below(4);
-        let mut pool = g.names.clone();
-        r.shuffle(&mut pool);
-        pool.truncate(k);
-        g.names = pool;
+        if !scaled {
+            g.max_depth = 2 + r.below(4);
+            g.max_kids = 1 + r.below(5);
+            // a small pool per session so that names repeat at different depths and documents overlap
+            let k = 2 + r.below(4);
+            let mut pool = g.names.clone();
+            r.shuffle(&mut pool);
+            pool.truncate(k);
+            g.names = pool;
+        }
         let root = r.pick(&g.names).clone();
         let ndocs = 1 + r.below(4);
         let mut sess = Session::new();
@@ -150,7 +153,7 @@ pub fn record_schema(a: &Args) {
             let mut bytes = match r.below(20) {
                 0 => elementless(&mut r),
                 _ => {
-                    let budget = 1 + r.below(max_elems);
+                    let budget = 1 + r.below(if scaled { 3 * max_elems } else { max_elems });
                     document(&mut r, &g, &root, budget)
                 }
             };
